@@ -22,8 +22,8 @@ from sim.kernel import Engine, EventQueue, StopRun
 
 RULES = ['none', 'none', 'tx-vin-empty', 'tx-vout-empty', 'value-negative', 'value-toolarge', 'total-toolarge', 'duplicate-input', 'cb-script-1', 'cb-script-101',
          'cb-script-2', 'cb-script-100', 'null-prevout', 'second-coinbase', 'no-coinbase', 'duplicate-tx', 'duplicate-txid-other-witness', 'sigops-20000', 'sigops-20001', 'sigops-cb-20001',
-         'sigops-malformed-push', 'sigops-in-scriptsig', 'sigops-cb-scriptsig-20001', 'sigops-cb-scriptsig-20000', 'size-at-limit', 'size-over-limit', 'weight-over-limit', 'merkle-wrong', 'wit-no-commitment', 'wit-bad-commitment',
-         'wit-commitment-in-other-tx', 'wit-coinbase-no-witness', 'wit-reserved-31', 'wit-reserved-2items', 'wit-valid', 'wit-only-coinbase', 'time-7200', 'time-7201',
+         'sigops-malformed-push', 'sigops-behind-overlong-push', 'sigops-in-scriptsig', 'sigops-cb-scriptsig-20001', 'sigops-cb-scriptsig-20000', 'size-at-limit', 'size-over-limit', 'weight-over-limit', 'merkle-wrong', 'wit-no-commitment', 'wit-bad-commitment',
+         'wit-commitment-in-other-tx', 'wit-coinbase-no-witness', 'wit-reserved-31', 'wit-reserved-2items', 'wit-valid', 'wit-only-coinbase', 'wit-only-coinbase-no-commitment', 'wit-only-coinbase-bad-commitment', 'time-7200', 'time-7201',
          'time-far', 'pow-limit', 'pow-zero', 'pow-negative', 'pow-overflow', 'pow-hash-high', 'empty-block', 'cb-value-negative', 'cb-dup-of-tx', 'value-max', 'total-max']
 
 
@@ -36,7 +36,7 @@ class BlockNet(Engine):
     nontrivial_rule = ('run = 2-4 parties (miners/validators on chains with clock skews), 1-8 mined blocks each with one catalogue rule (or a seeded pair) violated or none, '
                        'delivered with delay and checked with the default or the injected clock, some re-checked after simulated time passed; distinct = distinct '
                        'trace-shape digest; non-trivial = a rule fault or a clock fault was injected')
-    quick_runs = 3000
+    quick_runs = 2600
     assumptions_default = ['witness commitment scripts are generated at exactly 38 bytes (BIP141 allows longer ones; the library accepts 38-39: not pinned by the property)',
                            'blocks with a commitment but no witness data are not generated (not pinned)',
                            'PoW-valid blocks are mined only on regtest; on other chains valid blocks are checked with fCheckPoW=False']
@@ -173,7 +173,16 @@ class BlockNet(Engine):
         blk['txs'] = [cb] + txs
         blk['time'] = int(check_time + a['ntime_offset']) & 0xffffffff
         rules = [x for x in (a['rule'], a['rule2']) if x and x != 'none']
+        # composite entries of the catalogue: witness data in the coinbase only, AND the commitment wrong
+        builder_only = set()
+        for comp, parts in (('wit-only-coinbase-no-commitment', ['wit-only-coinbase', 'wit-no-commitment']),
+                            ('wit-only-coinbase-bad-commitment', ['wit-only-coinbase', 'wit-bad-commitment'])):
+            if comp in rules:
+                rules = [x for x in rules if x != comp] + parts
+                builder_only.add(parts[1])     # affects only how the commitment is written below
         for ri, rule in enumerate(rules):
+            if rule in builder_only:
+                continue
             if ri == 0:
                 self._violate(blk, rule, a, check_time)
             else:
@@ -357,6 +366,22 @@ class BlockNet(Engine):
                     k = min(per, need)
                     t['vout'].append({'value': 0, 'script': self._sigop_script(k, malformed_tail=(rule == 'sigops-malformed-push'))})
                     need -= k
+        elif rule == 'sigops-behind-overlong-push':
+            # 20,001 CHECKSIGs that are NOT counted: they sit behind a push announcing more bytes than the
+            # script has left (every byte of the length field non-zero in turn), where counting stops
+            t = some_tx()
+            variant = r[1] % 5
+            if variant == 0:
+                head, fill = b'\x4e' + (0x01000000 + r[2] % 7).to_bytes(4, 'little'), 65536 + r[3] % 500
+            elif variant == 1:
+                head, fill = b'\x4e' + (0x00020000 + r[2] % 7).to_bytes(4, 'little'), 300 + r[3] % 500
+            elif variant == 2:
+                head, fill = b'\x4e\xff\xff\xff\xff', r[3] % 70000
+            elif variant == 3:
+                head, fill = b'\x4d' + (0xff00 + r[2] % 256).to_bytes(2, 'little'), r[3] % 300
+            else:
+                head, fill = b'\x4c\xff', r[3] % 200
+            t['vout'].append({'value': 0, 'script': (head + b'\x00' * fill + b'\xac' * 20001).hex()})
         elif rule in ('sigops-cb-scriptsig-20001', 'sigops-cb-scriptsig-20000'):
             # part of the total sits in the coinbase scriptSig (2..100 bytes, never executed but counted)
             k = 1 + r[1] % 100
